@@ -127,7 +127,10 @@ class TwoEndedLink(link.Link):
         link; the new vertex is attached only if it is not attached yet.
         """
         old = self._vertices[idx]
+        # every vertex listed before or after the change sees a new neighbor
+        self._invalidate_ends()
         self._vertices[idx] = new
+        self._invalidate_ends()
         if (old is not None) and not any(v is old for v in self._vertices):
             old.remove_from_link(self)
         if (new is not None) and (self not in new.links):
